@@ -86,6 +86,9 @@ class Report:
         for k, v in (res.get("margins") or {}).items():
             if v is None:
                 continue
+            v = float(v)
+            if v != v or v > 1e300:  # NaN / inf: keep evidence strict-JSON and make it the worst margin
+                v = 1e300
             if k not in self.margins or v > self.margins[k]["worst"]:
                 self.margins[k] = {"worst": float(v), "case": cid,
                                    "n": self.margins.get(k, {}).get("n", 0) + 1}
